@@ -94,11 +94,6 @@ theorem startOrd_pos (da : DailyArgs a) : 1 ≤ Spec.RRule.startOrd a := by
   unfold DT.Valid ValidDate at hv
   exact toOrdinal_pos _ _ _ hv.1.1 hv.1.2.2
 
-theorem intRange_one (x : Int) : intRange x (x + 1) = [x] := by
-  unfold intRange
-  have : (x + 1 - x).toNat = 1 := by omega
-  rw [this]; simp [List.range_succ]
-
 /-- the specification's candidates of period `k` of a DAILY argument set -/
 theorem daily_sel (da : DailyArgs a) (k : Nat) :
     Spec.RRule.sel a (k : Int) =
